@@ -290,6 +290,111 @@ func checkC06(p *Program, r *Report) {
 	if n == 0 {
 		r.Unk("Rank64 on legacy array", "", "no rank query on a legacy array found under Unmarshal")
 	}
+	// C06.trim: a conversion that assembles bitmap words by hand must not trim the last word with
+	// mask(n&63) unguarded (wrong exactly at multiples of 64, which no sample stream has)
+	var under []*ssa.Function
+	for f := range trieReach(vt.ve.un) {
+		under = append(under, f)
+	}
+	sort.Slice(under, func(i, j int) bool { return under[i].String() < under[j].String() })
+	checkMaskTrim(p, r, "C06.trim", under)
+	checkLegacyEmptiness(p, r, under)
+}
+
+// checkLegacyEmptiness (C06.empty-legacy): in the pre-0.5.10 layout a trie
+// with a single key has NO children entry (its root is a leaf) and one leaf
+// entry. A branch of the legacy loader that decides "nothing to rebuild" from
+// the children array alone (its Cnt, or the length of one of its slices,
+// compared with 0) loses that trie; emptiness needs the leaves array too.
+func checkLegacyEmptiness(p *Program, r *Report, fns []*ssa.Function) {
+	r.Rule("C06.empty-legacy", "SSA", "the legacy loader never takes an empty children array for an empty trie", 0)
+	isArr := func(v ssa.Value, name string) bool { return isNamed(v.Type(), arrayPath, name) }
+	// an emptiness test of an array: (x.Cnt | len(x.F)) cmp 0 where x is a value of the given array type
+	emptinessOf := func(cond ssa.Value, typ string) bool {
+		bo, ok := cond.(*ssa.BinOp)
+		if !ok {
+			return false
+		}
+		for _, pr := range [][2]ssa.Value{{bo.X, bo.Y}, {bo.Y, bo.X}} {
+			if k, ok := constInt(pr[1]); !ok || k != 0 {
+				continue
+			}
+			v := pr[0]
+			if c, ok := v.(*ssa.Call); ok {
+				if bi, ok := c.Call.Value.(*ssa.Builtin); ok && bi.Name() == "len" && len(c.Call.Args) == 1 {
+					v = c.Call.Args[0]
+				}
+			}
+			if cv, ok := v.(*ssa.Convert); ok {
+				v = cv.X
+			}
+			ld, ok := v.(*ssa.UnOp)
+			if !ok {
+				continue
+			}
+			// x.F or x.Embedded.F
+			// the outermost object of the field path decides (Array embeds Base embeds Array32)
+			a := ld.X
+			var root ssa.Value
+			for d := 0; d < 4; d++ {
+				fa, ok := a.(*ssa.FieldAddr)
+				if !ok {
+					break
+				}
+				root = fa.X
+				a = fa.X
+			}
+			if root != nil && isArr(root, typ) {
+				return true
+			}
+		}
+		return false
+	}
+	n := 0
+	for _, f := range fns {
+		if f.Synthetic != "" || len(f.Blocks) == 0 {
+			continue
+		}
+		var childTests []*ssa.If
+		leavesBlocks := map[*ssa.BasicBlock]bool{} // blocks that compute an emptiness test of the leaves array
+		for _, b := range f.Blocks {
+			if iff, ok := lastInstr(b).(*ssa.If); ok && emptinessOf(iff.Cond, "Array32") {
+				childTests = append(childTests, iff)
+			}
+			for _, in := range b.Instrs {
+				if bo, ok := in.(*ssa.BinOp); ok && emptinessOf(bo, "Array") {
+					leavesBlocks[b] = true
+				}
+			}
+		}
+		for i, iff := range childTests {
+			n++
+			r.Func(shortFn(f))
+			// the companion test is part of the same && / || expression: computed in a direct
+			// successor of this branch, or this branch is a direct successor of it
+			b := iff.Block()
+			paired := leavesBlocks[b]
+			for _, s := range b.Succs {
+				if leavesBlocks[s] {
+					paired = true
+				}
+			}
+			for _, pr := range b.Preds {
+				if leavesBlocks[pr] {
+					paired = true
+				}
+			}
+			r.Check(paired, fmt.Sprintf("emptiness test #%d of the legacy children array in %s", i+1, shortFn(f)), p.Pos(iff.Cond.Pos()), "combined with the same test of the leaves array",
+				"the loader branches on the children array being empty without looking at the leaves array: a legacy single-key trie has no children entry but one leaf, and is loaded as empty (or its root is never visited)")
+		}
+	}
+	if n == 0 {
+		r.Note("C06.empty-legacy: the legacy loader has no branch on the emptiness of the children array")
+	}
+}
+
+func init() {
+	controlFns["C06"] = func(fx *Program, r *Report) { controlMaskTrim(fx, r, "C06.trim") }
 }
 
 func sortStr(s []string) []string { sort.Strings(s); return s }
